@@ -3,7 +3,7 @@
    agreement itself is decided by the correspondence run (both libraries on the same text and type).
    What is proved are the decisions sonic-rs makes on its own before a serde visitor is called. *)
 From Coq Require Import List NArith ZArith Lia.
-From SonicV Require Import Model.Number Model.SkipAll Model.Skip Model.SkipStr.
+From SonicV Require Import Model.Number Model.SkipAll Model.Skip Model.SkipStr Gen.Guards Gen.Tables Model.GuardsOk.
 Import ListNotations.
 Open Scope Z_scope.
 
@@ -22,3 +22,10 @@ Proof. exact skip_value_sound. Qed.
 Theorem string_token_extent : forall strict body rest fuel, str_body body -> (length body + 1 < fuel)%nat ->
   skip_str strict fuel (body ++ 34%N :: rest) = Some rest.
 Proof. exact skip_complete. Qed.
+
+(* float targets: the fast-path guards found in the source on this run keep the significand exactly
+   convertible (below 2^53) and every result of the normal fast path finite and normal, which is what
+   makes the value equal to serde_json's correctly rounded one *)
+Theorem float_fast_path_guards :
+  2 ^ G_CL_SHIFT <= 2 ^ 53 /\ (2 ^ 64 - 1) * 10 ^ (G_NF_HI - 1) < 2 ^ 1024 - 2 ^ 970 /\ 10 ^ (- (G_NF_LO + 1)) <= 2 ^ 1022.
+Proof. pose proof clinger_guard as C. pose proof normal_fast_guard as N. intuition. Qed.
